@@ -141,6 +141,17 @@ def walkFiles (ro : Roar RV) (cx : List (Nat × Nat)) (mmap : Bool) (cfg : Cfg) 
     | .alloc s n => .alloc s n
     | .fault s => .fault s
 
+/-- `loadSnapshots` of the writer: the files OLDEST first (index 0 = oldest); the last one that loads wins -/
+def walkFilesW (ro : Roar RV) (cx : List (Nat × Nat)) (mmap : Bool) (cfg : Cfg) :
+    List Bytes → Nat → Option (Nat × List (Seg RV)) → Outcome (Option (Nat × List (Seg RV)))
+  | [], _, acc => .ok acc
+  | b :: rest, i, acc => match loadOne ro cx mmap cfg b with
+    | .ok ss => walkFilesW ro cx mmap cfg rest (i + 1) (some (i, ss))
+    | .error _ => walkFilesW ro cx mmap cfg rest (i + 1) acc
+    | .panic s => .panic s
+    | .alloc s n => .alloc s n
+    | .fault s => .fault s
+
 def c12step (_ : Unit) (op : String) (impl : String) : Unit × String :=
   -- split off the roaring table
   let (op1, tbl) := match op.splitOn " roar=" with
@@ -273,6 +284,41 @@ def c12step (_ : Unit) (op : String) (impl : String) : Unit × String :=
               (match newestRes with | .error e => ["ld-newest-err-" ++ errName e] | .ok _ => ["ld-newest-accepted"] | _ => []) ++
               ["ld-" ++ mode, "ld-" ++ sizeBr file.length]
             (cls, verdict ++ brs (br.map ("ld-" ++ ·) ++ extra))
+        | _, _ => ("bad-op", "na")
+    | ["ldw", mode, f, o, ctx] => match hexToBytes f, (if o == "-" then some [] else hexToBytes o) with
+        | some file, some older =>
+            let mmap := mode == "mm"
+            let cx := parseCtx ctx
+            -- oldest first: epoch 1 (if present), then epoch 2
+            let files := if o == "-" then [file] else [older, file]
+            let base := if o == "-" then 2 else 1
+            let lim := allocLimit (bodyOf file).length
+            let res : Outcome (Nat × List (Seg RV)) := match walkFilesW ro cx mmap currentCfg files 0 none with
+              | .ok (some x) => .ok x
+              | .ok none => .error .noSnapshot
+              | .error e => .error e
+              | .panic s => .panic s
+              | .alloc s n => .alloc s n
+              | .fault s => .fault s
+            let okStr (x : Nat × List (Seg RV)) : String := match specialOf x.2 with
+              | some sp => sp
+              | none => "ok epoch=" ++ toString (base + x.1) ++ " " ++ showSegs x.2
+            let (cls, br) := classOf lim impl okStr res
+            let ic := implClass impl
+            -- specification: an intact, loadable older snapshot below a newest file that is not accepted ⇒ the writer opens
+            let olderIntact : Bool := o != "-" && (match loadOne ro cx mmap Cfg.guarded older with
+              | .ok ss => encFile ro ss == older
+              | _ => false)
+            let newestRes := loadOne ro cx mmap currentCfg file
+            let verdict :=
+              if unsafeClass ic then "bad:" ++ ic ++ siteOf newestRes
+              else if olderIntact && ic == "error" then "bad:no-fallback-writer"
+              else "ok"
+            let extra :=
+              (match newestRes with | .ok _ => ["ldw-newest-accepted"] | .error e => ["ldw-newest-err-" ++ errName e] | _ => []) ++
+              (if impl.startsWith "ok epoch=1 " then ["ldw-fallback-used"] else []) ++
+              (if olderIntact then ["ldw-older-intact"] else []) ++ ["ldw-" ++ mode]
+            (cls, verdict ++ brs (br.map ("ldw-" ++ ·) ++ extra))
         | _, _ => ("bad-op", "na")
     | "case" :: _ => ("case", "na")
     | _ => ("bad-op", "na")
